@@ -215,35 +215,53 @@ func (n *hnode) handlerErr() error {
 }
 
 // waitHandled waits until every accepted connection of n has been handled and at least
-// `atLeast` connections were handled in total.
+// `atLeast` connections were handled in total.  The watchdog is counted in scheduling rounds of
+// this process (1 ms sleeps), not only in wall time: a box that starves the whole process for
+// seconds must not look like a hanging handler.
 func (n *hnode) waitHandled(atLeast int64) bool {
-	deadline := time.Now().Add(watchdog)
-	for {
+	rounds := int(watchdog / time.Millisecond)
+	for i := 0; ; i++ {
 		h := n.handled.Load()
 		if h >= atLeast && h == n.accepted.Load() {
 			return true
 		}
-		if time.Now().After(deadline) {
+		if i >= 200+rounds {
 			return false
 		}
-		time.Sleep(50 * time.Microsecond)
+		if i < 200 {
+			time.Sleep(20 * time.Microsecond)
+		} else {
+			time.Sleep(time.Millisecond)
+		}
 	}
 }
 
-// guarded runs a real handler call under the watchdog; panics are re-raised in the caller.
+// guarded runs a real handler call under the watchdog (counted in 100 ms rounds, see
+// waitHandled); panics are re-raised in the caller.
 func guarded(f func()) bool {
 	done := make(chan any, 1)
 	go func() {
 		defer func() { done <- recover() }()
 		f()
 	}()
-	select {
-	case p := <-done:
+	finish := func(p any) bool {
 		if p != nil {
 			panic(p)
 		}
 		return true
-	case <-time.After(watchdog):
+	}
+	rounds := int(watchdog / (100 * time.Millisecond))
+	for i := 0; i < rounds; i++ {
+		select {
+		case p := <-done:
+			return finish(p)
+		case <-time.After(100 * time.Millisecond):
+		}
+	}
+	select {
+	case p := <-done:
+		return finish(p)
+	default:
 		return false
 	}
 }
@@ -260,6 +278,7 @@ type engine struct {
 	pool      []packet
 	canon     map[string]string // real address -> canonical address
 	anyExp    bool              // some observer expired some node in this case (C02's quantifier has no expiry)
+	diverged  bool              // the op lines no longer fit this run (items-mismatch / missing packet): settle oracle off
 	lastItems int               // items carried by the last hdeliver reply (for the generator)
 }
 
@@ -281,6 +300,7 @@ func (e *engine) Reset() {
 	e.pool = nil
 	e.canon = map[string]string{}
 	e.anyExp = false
+	e.diverged = false
 }
 
 const huge = 1 << 30
@@ -557,6 +577,17 @@ func (e *engine) newNode(id, addr string) *hnode {
 }
 
 func (e *engine) Step(ws []string, o *Out) string {
+	line := e.step(ws, o)
+	if line == "err no-packet" || strings.HasPrefix(line, "err items-mismatch") {
+		// the generator observed another schedule than this run (only possible when the code under
+		// test behaves non-deterministically, e.g. a mutant iterating a map): the correspondence
+		// already reports it; the settle oracle would only repeat it in a misleading form
+		e.diverged = true
+	}
+	return line
+}
+
+func (e *engine) step(ws []string, o *Out) string {
 	switch ws[0] {
 	case "node":
 		id, addr := Unhx(ws[1]), Unhx(ws[2])
@@ -620,7 +651,7 @@ func (e *engine) Step(ws []string, o *Out) string {
 	case "converged":
 		// are all listed nodes' views of each other exactly the owners' states?
 		ids := strings.Split(ws[1], ",")
-		conv := true
+		conv, all := true, true
 		for _, r := range ids {
 			for _, a := range ids {
 				if r == a {
@@ -628,7 +659,7 @@ func (e *engine) Step(ws []string, o *Out) string {
 				}
 				gr, ga := e.nodes[Unhx(r)], e.nodes[Unhx(a)]
 				if gr == nil || ga == nil {
-					conv = false
+					conv, all = false, false
 					continue
 				}
 				V, ok := gr.st.Node(ga.id)
@@ -638,7 +669,7 @@ func (e *engine) Step(ws []string, o *Out) string {
 				}
 			}
 		}
-		if len(ws) > 2 && ws[2] == "expect=1" && !conv {
+		if len(ws) > 2 && ws[2] == "expect=1" && !conv && all && !e.diverged {
 			o.Fail("C03", "not-converged-after-settle", "nodes="+ws[1])
 		}
 		o.Count("oracle:C03:converged")
